@@ -247,10 +247,10 @@ func (s *Storer) GetReader(offset int64, verifyCrc bool) (*Reader, error) {
 	s.mux.RLock()
 	defer s.mux.RUnlock()
 
-	s.dataSetMux.Lock()
-	defer s.dataSetMux.Unlock()
-
-	ds := s.dataSet
+	// the data set is only replaced with s.mux held exclusively, so it is stable here. dataSetMux must not be
+	// held while the aof reader is built : with verifyCrc the reader asks the storer whether the segment still
+	// has a writer (hasWriter -> getDataSet), which locks dataSetMux again and would block for ever
+	ds := s.getDataSet()
 	if !ds.InRange(offset) {
 		return nil, os.ErrNotExist
 	}
